@@ -514,3 +514,35 @@ Section Examples.
     protected ex_homestead = false /\ step_eth toy_hash toy_recover ex_cfg ex_state (ex_homestead, true) = (ex_state, None).
   Proof. split; [reflexivity|]. apply unprotected_rejected; reflexivity. Qed.
 End Examples.
+
+(** the cryptographic premises of the [_partial] theorems are jointly
+    satisfiable (so those theorems are not vacuous for want of a model): an
+    injective "hash", a recovery that checks a keyed tag, and a key holder who
+    signed exactly one transaction *)
+Section PremisesSatisfiable.
+  Definition id_hash (b : bytes) : bytes := b.
+  (** "signature" of digest h by the holder of address [9;9]: r = s = 0, v = 27,
+      valid only for the one digest that holder signed *)
+  Definition one_digest : bytes := sign_preimage 11235 ex_unsigned.
+  Definition one_recover (h : bytes) (r s v : Z) : option bytes :=
+    if list_eq_dec N.eq_dec h one_digest then Some [9%N; 9%N] else None.
+  Definition one_signed (a : bytes) (cid : Z) (tx : eth_tx) : Prop :=
+    a = [9%N; 9%N] /\ cid = 11235%Z /\ tx = ex_unsigned.
+
+  Example premises_satisfiable :
+    Unforgeable id_hash one_recover one_signed /\ CollisionFree id_hash /\ SignedAreSignable one_signed.
+  Proof.
+    split; [|split].
+    - intros h r s v a. unfold one_recover. destruct (list_eq_dec N.eq_dec h one_digest) as [->|]; [|discriminate].
+      intros E. inversion E. exists 11235%Z, ex_unsigned. split; [repeat split|reflexivity].
+    - intros cid1 tx1 cid2 tx2 E. exact E.
+    - intros a cid tx (_ & -> & ->). split; [lia|]. split; [apply wfb_wf; vm_compute; reflexivity|].
+      cbn. repeat split; try lia; exact I.
+  Qed.
+
+  (** ... and with them a transaction does get accepted, so the conclusion of
+      [accepted_only_if_signed_partial] is exercised *)
+  Example premises_allow_acceptance :
+    snd (step_eth id_hash one_recover ex_cfg (fun _ => 5%N) (ex_unsigned, true)) = Some [9%N; 9%N].
+  Proof. vm_compute. reflexivity. Qed.
+End PremisesSatisfiable.
